@@ -64,6 +64,8 @@ def predicates(ctx, cfg, env, td, B):
             p.check("shape", shape_is(c, B, n, n), f"cost_matrix {tuple(c.shape)}")
             p.check("diag_zero", bool((torch.diagonal(c, dim1=-2, dim2=-1) == 0).all()), "non-zero diagonal")
             p.check("dist_in_bounds", in_range(c, 0.0, g.max_dist), "distance outside [0, max_dist]")
+            off = ~torch.eye(n, dtype=torch.bool).expand(B, n, n)
+            p.check("dist_in_documented_range", in_range(c[off], g.min_dist, g.max_dist, eps=1e-5), f"off-diagonal distance outside [min_dist, max_dist] = [{g.min_dist}, {g.max_dist}]: {float(c[off].min()):.4f}..{float(c[off].max()):.4f}")
             if g.tmat_class:
                 viol = (c[:, :, None, :] > c[:, :, :, None] + c[:, None, :, :] + 1e-6)  # c[i,k] > c[i,j] + c[j,k]
                 p.check("triangle_inequality", not bool(viol.any()), "c[i,k] > c[i,j] + c[j,k] for some triple although tmat_class=True")
@@ -140,8 +142,17 @@ def predicates(ctx, cfg, env, td, B):
             p.check("demand_le_capacity", bool((lh <= td["vehicle_capacity"] + 1e-6).all()) and bool((bh <= td["vehicle_capacity"] + 1e-6).all()), "a demand exceeds the capacity")
             co = td["capacity_original"].reshape(B, 1) if "capacity_original" in keys else None
             if co is not None:
-                d = (lh + bh) * co
+                scaled = bool(getattr(g, "scale_demand", True))
+                d = (lh + bh) * co if scaled else (lh + bh)
                 p.check("demand_integer", bool(((d - d.round()).abs() < 1e-3).all()), "demand x capacity is not an integer")
+                p.check("capacity_original", bool((co == float(g.capacity)).all()), f"capacity_original {float(co.flatten()[0])} != configured capacity {g.capacity}")
+                vc = td["vehicle_capacity"].reshape(B, 1)
+                p.check("vehicle_capacity_scaling", bool((vc == (1.0 if scaled else float(g.capacity))).all()), f"vehicle_capacity {float(vc.flatten()[0])} with scale_demand={scaled} (capacity {g.capacity})")
+                dl, db = (lh * co if scaled else lh).round(), (bh * co if scaled else bh).round()
+                # customers turned from backhaul into linehaul by the variant sub-sampling keep their backhaul-range value
+                lo_, hi_ = min(g.min_demand, g.min_backhaul), max(g.max_demand, g.max_backhaul)
+                p.check("demand_in_range", bool(((dl[dl > 0] >= lo_) & (dl[dl > 0] <= hi_)).all()) and bool(((db[db > 0] >= g.min_backhaul) & (db[db > 0] <= g.max_backhaul)).all()),
+                        f"integer demands outside their documented ranges (linehaul {float(dl[dl > 0].min()) if (dl > 0).any() else None}..{float(dl.max())}, backhaul ..{float(db.max())})")
             d0 = (locs[:, 1:] - locs[:, :1]).norm(dim=-1)
             lim = td["distance_limit"].reshape(B, 1)
             has_l = torch.isfinite(lim).reshape(B)
